@@ -10,6 +10,7 @@ from types import MethodType
 import numpy as np
 
 from .helper import create_build_finer_grid_fun
+from ..markovchain.markovchain import chain_over_intervals
 from ..markovchain.markovchainlevycopula import MarkovChainLevyCopula
 from ...distribution.sampling import SamplingMethod
 from ...distribution.univariate.uniform import Uniform
@@ -329,7 +330,8 @@ class CouplingLevyCopulaSimulationWithJumpTimes(CouplingLevyCopulaSimulation):
         fine_states_increments = fine_mc.states_increments
         fines_states_allvalues = fine_mc.values
         jump_times = fine_mc.times
-        coarse_states_values = np.empty_like(fines_states_allvalues)
+        # one array per product interval (the intervals have different numbers of jumps)
+        coarse_states_values = [np.empty(shape=0)] * len(fines_states_allvalues)
 
         for k, (slice_fine_states, slice_fine_values) in enumerate(
             zip(fine_states_increments, fines_states_allvalues)
@@ -340,8 +342,14 @@ class CouplingLevyCopulaSimulationWithJumpTimes(CouplingLevyCopulaSimulation):
                 )
                 coarse_states_values[k] = slice_coarse_values
 
-        fines_states_values = np.concatenate(fines_states_allvalues).T
-        coarse_states_values = np.concatenate(coarse_states_values).T
+        # the chains restart at the origin in every interval: carry their end values over the product dates;
+        # shape (dimension, number of jumps)
+        fines_states_values = (
+            chain_over_intervals(fines_states_allvalues).reshape(-1, self._dimension).T
+        )
+        coarse_states_values = (
+            chain_over_intervals(coarse_states_values).reshape(-1, self._dimension).T
+        )
 
         return jump_times, fines_states_values, coarse_states_values
 
